@@ -29,6 +29,8 @@ static long ncalls_total;
 static int our_fd = -1, fds_open;
 static unsigned char osbytes[32];
 static int active;
+static size_t got;      /* bytes of the 32-byte OS stream already handed out by short reads (an implementation may either
+                           re-read the whole seed or ask only for the remainder; both are served consistently) */
 
 static void emit_os(const char *fn, const char *outcome, long ret, long len)
 {
@@ -45,7 +47,8 @@ static long os_random(const char *fn, void *buf, size_t len, int entropy_style)
 {
     const char *it = next_item();
     if (!strcmp(it, "OK")) {
-        memcpy(buf, osbytes, len < 32 ? len : 32);
+        if (len >= 32 || got + len > 32) got = 0;
+        memcpy(buf, osbytes + got, len < 32 ? len : 32);
         emit_os(fn, "OK", entropy_style ? 0 : (long)len, (long)len);
         return entropy_style ? 0 : (long)len;
     }
@@ -91,7 +94,10 @@ ssize_t __wrap_read(int fd, void *buf, size_t len)
         if (!strncmp(it, "SHORT", 5)) {
             const char *c = strchr(it, ':'); long k = c ? atol(c + 1) : 5;
             if (k < 1) k = 1; if (k > 31) k = 31;
-            memset(buf, 0x77, (size_t)k);
+            if (len >= 32 || got + len > 32) got = 0;
+            if ((size_t)k >= len) k = (long)len - 1;
+            if (k < 1) k = 1;
+            memcpy(buf, osbytes + got, (size_t)k); got += (size_t)k;
             emit_os("read", "SHORT", k, (long)len); return k;
         }
         long r = os_random("read", buf, len, 0);
@@ -144,7 +150,7 @@ int main(void)
         }
         if (its) { if (!has_rep) nitems = 0;
             for (char *sv = NULL, *t = strtok_r(its, ",", &sv); t && nitems < MAXITEMS; t = strtok_r(NULL, ",", &sv)) items[nitems++] = t; }
-        pos = 0; ncalls_total = 0;
+        pos = 0; ncalls_total = 0; got = 0;
         for (int i = 0; i < 32; i++) osbytes[i] = (unsigned char)(0x30 + i + (cur_id[0] & 7));
         unsigned char buf[32 + 16];
         memset(buf, prefill, sizeof(buf));
